@@ -33,6 +33,57 @@ class Interner(object):
         return x in self.ids
 
 
+def ordered_interner(symbols):
+    """Interner whose codes for `symbols` are ascending in Python's order of the symbols (the
+    model generator `gen` numbers states by iterating symbols in code order, `Grammar._items` in
+    `sorted` order)."""
+    it = Interner()
+    for x in sorted(set(symbols)):
+        it(x)
+    return it
+
+
+def gen_expected(parser, all_prods, sym):
+    """The real parser in the canonical form printed by the driver op `GEN`."""
+    lr1 = lr1mod()
+    pidx = dict((p, i) for i, p in enumerate(all_prods))
+    items = ";".join("%d:%s" % (i, ",".join("%d.%d.%d" % t for t in sorted(
+        (pidx[it.production], it.dot, sym(it.terminal)) for it in s))) for i, s in enumerate(parser.item_sets))
+    if parser.conflicts:
+        acts = "?"
+    else:
+        rows = []
+        for i in sorted(parser.action.keys()):
+            if not parser.action[i]:
+                continue
+            ents = []
+            for a, act in sorted(parser.action[i].items(), key=lambda kv: sym(kv[0])):
+                if isinstance(act, lr1.Shift):
+                    v = "S%d" % act.state
+                elif isinstance(act, lr1.Reduce):
+                    v = "R%d" % pidx[act.rule]
+                elif isinstance(act, lr1.Accept):
+                    v = "A"
+                else:
+                    v = "EN" if act.code is None else "E?"
+                ents.append("%d=%s" % (sym(a), v))
+            rows.append("%d:%s" % (i, ",".join(ents)))
+        acts = ";".join(rows)
+    grows = []
+    for i in sorted(parser.goto.keys()):
+        if parser.goto[i]:
+            grows.append("%d:%s" % (i, ",".join("%d=%d" % (k, t) for k, t in sorted(
+                (sym(x), t) for x, t in parser.goto[i].items()))))
+    return "gen conflicts=%d n=%d items=%s actions=%s gotos=%s" % (
+        1 if parser.conflicts else 0, len(parser.item_sets), items, fld(acts), fld(";".join(grows)))
+
+
+def gen_line(start, user_prods, sym):
+    lr1 = lr1mod()
+    return "GEN %d %d %d %s" % (sym(start), sym(lr1.START_PRIME), sym(lr1.END_OF_INPUT),
+                                rules_text(user_prods, sym))
+
+
 def fld(s):
     return s if s else "-"
 
@@ -179,12 +230,34 @@ def tree_tuple(t, index_of):
     return ("leaf", t.symbol, index_of.get(id(t), -1))
 
 
-def real_parse(parser, tokens, sym, code):
-    """(canonical line, ParseResult | None, exception | None)"""
+class ParseTimeout(Exception):
+    """The real `Parser.parse` did not return within the time limit (it loops)."""
+
+
+def _parse_alarm(signum, frame):
+    raise ParseTimeout()
+
+
+def real_parse(parser, tokens, sym, code, limit=None):
+    """(canonical line, ParseResult | None, exception | None).  `limit` (seconds, main thread
+    only): a parse that does not return in time is reported as ParseTimeout — a table with a
+    reduction cycle makes `parse` push entries forever (≈ 100 MB/s), which must end the case,
+    not the run."""
+    import signal
+    old = None
+    if limit:
+        old = signal.signal(signal.SIGALRM, _parse_alarm)
+        signal.setitimer(signal.ITIMER_REAL, limit)
     try:
         res = parser.parse(tokens)
+    except ParseTimeout as e:
+        return "internal ParseTimeout", None, e
     except Exception as e:  # any exception from lr1 is itself an observation
         return "internal %s" % type(e).__name__, None, e
+    finally:
+        if limit:
+            signal.setitimer(signal.ITIMER_REAL, 0)
+            signal.signal(signal.SIGALRM, old)
     index_of = dict((id(t), i) for i, t in enumerate(tokens))
     if res.error is None:
         return "accept " + render_tree(res.parse_tree, index_of, sym), res, None
